@@ -5,6 +5,7 @@ import (
 	"strings"
 
 	"github.com/freeconf/yang/node"
+	"github.com/freeconf/yang/nodeutil"
 	"pgregory.net/rapid"
 
 	"verif/harness/dm"
@@ -39,10 +40,15 @@ func c17KeyType(base string) *dm.Type {
 }
 
 func c17LookupGen(t *rapid.T) c17LookupCase {
-	c := c17LookupCase{Store: rapid.SampledFrom([]string{"rs", "reflect-slice", "node-slice", "reflect-map", "node-map", "reflect-struct", "node-struct", "json-reader", "xml-reader"}).Draw(t, "store")}
+	c := c17LookupCase{Store: rapid.SampledFrom([]string{"rs", "reflect-slice", "node-slice", "reflect-map", "node-map", "reflect-struct", "node-struct", "json-reader", "xml-reader", "node-map-enum-as-strings", "node-map-enum-as-int"}).Draw(t, "store")}
 	bases := []string{"int8", "int16", "int32", "int64", "uint8", "uint16", "uint32", "uint64", "string", "boolean", "enumeration"}
 	nk := rapid.IntRange(1, 3).Draw(t, "nkeys")
 	switch c.Store {
+	case "node-map-enum-as-strings", "node-map-enum-as-int":
+		// a map-backed list that the node fills itself, with the option that makes it keep enumerations as their names
+		// (or numbers): the key leaf is an enumeration
+		nk = 1
+		bases = []string{"enumeration"}
 	case "reflect-map", "node-map":
 		nk = 1
 		bases = []string{"string", "int32", "int64"} // the key types the library itself creates maps for
@@ -107,6 +113,18 @@ func c17LookupGen(t *rapid.T) c17LookupCase {
 	return c
 }
 
+// optsStore serves a map the library filled, through a nodeutil.Node with the options it was filled with
+type optsStore struct {
+	data map[string]interface{}
+	opts nodeutil.NodeOptions
+}
+
+func (s optsStore) Kind() string               { return "node-map-opts" }
+func (s optsStore) Node() node.Node            { return &nodeutil.Node{Object: s.data, Options: s.opts} }
+func (s optsStore) Snapshot() (dm.Tree, error) { return nil, fmt.Errorf("no snapshot") }
+func (s optsStore) KeepsOrder() bool           { return false }
+func (s optsStore) ZeroIsUnset() bool          { return false }
+
 func c17LookupRun(c c17LookupCase, o *hx.Obs) {
 	l := &dm.Node{Kind: "list", Name: "l"}
 	for i, b := range c.KeyTypes {
@@ -158,8 +176,22 @@ func c17LookupRun(c c17LookupCase, o *hx.Obs) {
 		o.Class("the slice starts with an item that lacks a key leaf")
 		o.NonTrivial()
 	}
-	store, serr := dm.NewStore(c.Store, m.Root(), dm.Tree{"l": rows})
-	if serr != nil {
+	var store dm.Store
+	var serr error
+	if strings.HasPrefix(c.Store, "node-map-enum") {
+		// the entries are written through the node itself
+		data := map[string]interface{}{}
+		opts := nodeutil.NodeOptions{EnumAsStrings: c.Store == "node-map-enum-as-strings", EnumAsInt: c.Store == "node-map-enum-as-int"}
+		src, jerr := nodeutil.ReadJSON(dm.ToJSON("", m.Root(), dm.Tree{"l": rows}, dm.JSONStyle{}))
+		if jerr == nil {
+			jerr = node.NewBrowser(mm, &nodeutil.Node{Object: data, Options: opts}).Root().UpsertFrom(src)
+		}
+		if jerr != nil {
+			o.Failf("lookup|fill-error|"+c.Store+"|"+strings.Join(c.KeyTypes, ","), "filling the list through the node failed: %v", jerr)
+			return
+		}
+		store = optsStore{data: data, opts: opts}
+	} else if store, serr = dm.NewStore(c.Store, m.Root(), dm.Tree{"l": rows}); serr != nil {
 		o.Failf("harness|store", "%v", serr)
 		return
 	}
